@@ -9,8 +9,9 @@ NOTE = ("Trusted: go/ssa translation (x/tools v0.29.0), the engine's SSA semanti
 
 claimed = {
  "C03": dict(text="Bounded model checking of the scalar range gate of ECDSA verification (acceptance implies r, s in [1, n-1]; DER signatures with R and S of 1..33 bytes; the curve computation replaced by a stub with arbitrary verdict and x coordinate) "
-                  "and of signature serialisation (Signature.Bytes is strict minimal DER and parses back for every r, s in [1, 2^256)).",
-             ref="6/C03", note=NOTE + "Thin coverage: public-key validity (on-curve, coordinates < p), BIP340 and taproot-tweak gates, and the signers' nonce derivation are outside this revision. "),
+                  "and of signature serialisation (Signature.Bytes is strict minimal DER and parses back for every r, s in [1, 2^256)); public-key parsing for every length and prefix (accepted implies coordinates below p, on the curve, announced parity; valid uncompressed keys are accepted), "
+                  "x-only keys, the BIP341 tweak check and the BIP340 gates (key, r < p, s < n, finite even-y nonce point), with field products / square root as uninterpreted functions and the double multiplication as an arbitrary point.",
+             ref="6/C03", note=NOTE + "The group law itself (C08 L1-L3), the signers, RFC6979 and key recovery are outside this revision; the on-curve relation is decided over uninterpreted field products, so what is shown is that the checks are made, on top of the C08 field harnesses. "),
  "C14": dict(text="Bounded model checking (Int mode, HMAC-SHA512 / SHA-256 / RIPEMD-160 as injective ghost functions, public key as an uninterpreted function of the private key) of BIP32: CKDpriv for every key, chain code and index "
                   "(HMAC input layout hardened / normal, child = (IL + k) mod n zero-padded, chain code, depth, fingerprint, index), CKDpub (same HMAC input, tweak passed to the point addition, hardened indexes refused), "
                   "extended-key serialisation layout / checksum / parse-back, WIF export/import round trip.",
@@ -23,18 +24,18 @@ claimed = {
              ref="6/C13", note=NOTE + "sign_tx, write_tx_file and cleanExit are stubs under the engine (native replays use the real ones and read the written file back). Signature linkage and raw-transaction immutability are not yet covered. "),
  "C04": dict(text="Bounded model checking of block connection (commitTxs via ProcessBlockTransactions, with the context-free CheckTransaction rules in front as in PostCheckBlock) for a block of coinbase + 1..2 transactions (inputs may name the pre-state, the block's own coinbase and every transaction of the block: only an earlier one is spendable) "
                   "over a symbolic UTXO pre-state satisfying the representation invariant, arbitrary script verdicts, values compared as mathematical integers (Int mode): every input exists and is unspent, "
-                  "no double spend, no spend of the block's own coinbase, coinbase maturity, money range of every output and total, inputs cover outputs, coinbase claim <= subsidy + fees; subsidy schedule for every height.",
-             ref="6/C04", note=NOTE + "Outside: BIP68 relative lock-times and the sigop-cost limit (not asserted by this harness), blocks larger than the bound, the UTXO database commit itself. "),
+                  "no double spend, no spend of the block's own coinbase, coinbase maturity, money range of every output and total, inputs cover outputs, coinbase claim <= subsidy + fees; subsidy schedule for every height; BIP68 height locks (open known finding); legacy / P2SH / witness signature-operation counters equal Core's for every short script (open known finding behind OP_RETURN) and the 80000 cost limit with arbitrary counters.",
+             ref="6/C04", note=NOTE + "Outside: BIP68 time-based locks, blocks larger than the bound, the UTXO database commit itself. "),
  "C05": dict(text="Bounded model checking of header/structure rules, each against a transcription of Bitcoin Core's rule: median-time-past over 1..11 ancestors, PreCheckBlock acceptance (PoW verdict, required bits, "
                   "time-too-old / time-too-new with a symbolic clock, signed version gating, height/MTP bookkeeping), unknown-parent handling, verification-flag schedule, BIP34 height prefix for every uint32, "
-                  "IsFinalTx, Merkle root and the CVE-2012-2459 mutation flag for up to 5 (8) symbolic leaves, compact-target decoding (SetCompact: negative, overflow, zero) for every 32-bit value and the hash <= target comparison.",
-             ref="6/C05", note=NOTE + "Difficulty retargeting and the witness commitment are not yet covered by these harnesses; PoW and required-bits are stubs with arbitrary results in PreCheckBlock. "),
+                  "IsFinalTx, Merkle root and the CVE-2012-2459 mutation flag for up to 5 (8) symbolic leaves, compact-target decoding (SetCompact: negative, overflow, zero) for every 32-bit value, compact encoding (GetCompact) for every value up to 32 bytes, the hash <= target comparison, difficulty retargeting (four parent heights x six parent targets x arbitrary period timestamps) against pow.cpp, and the BIP141 witness commitment rule of PostCheckBlock.",
+             ref="6/C05", note=NOTE + "Testnet difficulty rules, the weight limit and the coinbase script length are not covered; PoW and required-bits are stubs with arbitrary results in PreCheckBlock. "),
  "C10": dict(text="Bounded model checking of the UTXO record codecs: serialize -> parse and single-output lookup round trips in the plain and the compressed format for records of 1..3 output slots "
                   "(each present or spent), scripts from eight families (arbitrary short, P2PKH/P2SH/compressed-P2PK templates with symbolic payload, same-length near misses, CompactSize-boundary lengths), symbolic txid/height/flags/values.",
              ref="6/C10", note=NOTE + "Outside: snapshot file I/O, uncompressed-key P2PK compression (curve arithmetic), more than 3 outputs. "),
  "C02": dict(text="Bounded model checking of the three signature-hash algorithms against reference preimages written from the original algorithm, BIP143 and BIP341/342: for every transaction "
                   "inside the shape bound with all field values, hash types, input index, script code, amounts, annex / leaf hash / code-separator position symbolic, the digest equals the reference "
-                  "(hashes are ghost byte streams compared under an injectivity assumption); cache-order independence; no digest where the BIPs define none.",
+                  "(hashes are ghost byte streams compared under an injectivity assumption); cache-order independence; no digest where the BIPs define none; signature removal from the script code (delSig) equals Core's FindAndDelete for every short script/signature and for signatures of every push-encoding class.",
              ref="6/C02", note=NOTE + "H-inj: SHA-256 treated as injective on the streams hashed along a path. ref_bip341 has no external vectors in this tree. "),
  "C18": dict(text="Bounded model checking of the peer-message handlers' parse/validate prefixes (version, inv, getdata, headers, getheaders/getblocks locators, getblocktxn, cmpctblock) on every payload up to the "
                   "per-handler length from an arbitrary connection status: no escaping panic, no lock of the handler's lock set held at return, work proportional to the payload.",
@@ -42,13 +43,13 @@ claimed = {
  "C01": dict(text="Bounded model checking of the script interpreter's leaf predicates against transcriptions of Bitcoin Core's: script-number decode/encode, CastToBool, "
                   "BIP66 DER / low-S / hash-type gates, public-key encoding gates, minimal-push rule, opcode fetch, push-only, witness-program and P2SH templates, BIP112 CheckSequence; "
                   "every byte string up to the per-harness length bound, all flag subsets; one executed opcode of the real evalScript (about 80 opcodes: stack, arithmetic/comparison, reserved/disabled/unknown, hash, NOP, CLTV, CSV) "
-                  "from an arbitrary stack of depth <= 4 against a reference step function (verdict and resulting stack).",
+                  "from an arbitrary stack of depth <= 4 against a reference step function (verdict and resulting stack); the BIP342 OP_SUCCESSx set.",
              ref="6/C01", note=NOTE + "The reference predicates (ref_* in harness/lib/script) are hand transcriptions of Core's and are part of the trusted base. "),
  "C15": dict(text="Bounded model checking of address coding: Base58 encode->decode for payloads of 0..3 and 25 bytes and decode->encode / alphabet refusal for strings of 1..2 characters; segwit address coding: encode->decode identity for every witness version / legal program length / program; refusal of illegal destinations; "
                   "decode->re-encode identity and BIP173/BIP350 rule conformance for every string of the tier's lengths (checksum reasoning by GF(2) elimination in the engine, everything else by z3).",
              ref="6/C15", note=NOTE + "The BCH checksum constraint is kept in solved form by the engine's GF(2) elimination; models are still produced and checked by the solver. "),
  "C09": dict(text="Bounded model checking of the wire codecs: CompactSize family over all uint64 / all byte strings up to 9 bytes; NewTx on every byte string up to 64 (thorough 110) bytes "
-                  "(re-encoding identity, agreement with a transcription of Bitcoin Core's deserialiser in both directions, TxSize, sizes/weight, allocation monitor); NewBlock + BuildTxList on short blocks (header, transaction count, allocation); "
+                  "(re-encoding identity, agreement with a transcription of Bitcoin Core's deserialiser in both directions, TxSize, sizes/weight, allocation monitor); NewBlock + BuildTxList on short blocks (header, transaction count, allocation) and the hashing path over two worker packs (txid, wtxid, coinbase marks, sizes, weight); "
                   "every path's assertions decided by z3 for all inputs of that path; counterexamples replayed on the native build.",
              ref="6/C09", note=NOTE),
 }
